@@ -12,6 +12,7 @@ import PdshVerif.Opt.WcollBytes
 import PdshVerif.Opt.WcollLookup
 import PdshVerif.Opt.WcollTopFd
 import PdshVerif.Opt.WcollLongName
+import PdshVerif.Opt.WcollStdinAgain
 import PdshVerif.Opt.Settings
 import PdshVerif.Dsh.Exit
 
@@ -33,7 +34,8 @@ and surrounding blanks ignored                           `WcollSpec`), `include_
 F looked up in the directory of the COMMAND-LINE file    `bare_include_in_top_directory`, `dot_names_are_bare`,
                                                          `nested_includes_in_command_line_directory` (every depth),
                                                          `stdin_includes_in_current_directory`, `dirname_is_dirOf`
-standard input for `-`                                   `assemble_refines` (`Source.stdin`; consumed once)
+standard input for `-`                                   `assemble_refines` (`Source.stdin`; consumed once), `stdin_read_once`,
+                                                         `later_stdin_sources_are_empty_files`, `stdin_stays_consumed`
 WCOLL when no other source is given                      `wcoll_only_without_other_source`, `wcoll_fallback`,
                                                          `no_source_no_list`, `empty_list_exit1`
 lines of ANY length read whole (no name split)           BYTE LEVEL: `glued_pieces_whole`, `whole_lines_bytes`,
@@ -79,8 +81,11 @@ byte-level `.glued`) and the environment (`wenv`); the empty list is refused wit
 `empty_list_exit1`).
 DESCRIPTORS (`descriptors_balanced`, `open_files_le_depth`): every stream the reader opens is closed when
 `wcoll_ctx_read_file` returns, one stream per include level at most (ghost counter, erasable).
-Not proved here: a SECOND stdin source inside `target_list_end_to_end` (C02's file table is a static lookup; the
-domain asks for at most one `-`; `stdin_read_once` says what the second one reads);  dirname(3)/access(2)/fgets(3) themselves (modelled);  NUL bytes in files;  the
+A SECOND stdin source: `targetDomain` asks for at most one `-` (C02's file table is a static lookup);
+`later_stdin_sources_are_empty_files` reduces every command line with more (any positions, also `-^-`) to one
+with a single stdin source and empty files `^E` in place of the later ones — identical option-processing state —
+and `target_list_end_to_end` then speaks about the reduced line.
+Not proved here:  dirname(3)/access(2)/fgets(3) themselves (modelled);  NUL bytes in files;  the
 `:`-split of the command-line file's directory (`colon_dir_witness`, outside the domain).
 -/
 namespace PdshVerif.Props.C10
@@ -496,6 +501,36 @@ theorem stdin_read_once (mode : LineMode) (fs : FS) (st : St) (hf : st.fatal = f
     split <;> simp
   · rw [harg, he]
     simp [absorb, hempty, hf]
+
+/-- A SECOND STDIN SOURCE IS AN EMPTY FILE.  Once standard input has been read (`pre`: the arguments up to and
+including the first stdin source — `stdin_read_once` says its `stdin` is `[]` afterwards), every later stdin source
+(`^-`, `-^-`), wherever it stands among the remaining arguments `post`, may be replaced by `^E` / `-^E` for an empty
+readable file `E` without changing ANYTHING the option processing computes: list, exclusions, filters, warnings,
+errors.  This reduces a command line with any number of stdin sources to one with a single stdin source — the form
+`targetDomain` asks for — so `target_list_end_to_end` speaks about it through the reduced line. -/
+theorem later_stdin_sources_are_empty_files (mode : LineMode) (fs : FS) (e : Str) (he : e ≠ ['-'])
+    (hl : lookup fs e = some ⟨e, true, []⟩) (pre post : List Str) (st : St)
+    (h : (pre.foldl (argProcess mode fs) st).stdin = []) :
+    (pre ++ post.map (stdinAsFile e)).foldl (argProcess mode fs) st =
+      (pre ++ post).foldl (argProcess mode fs) st :=
+  Wcoll.later_stdin_sources_are_empty_files mode fs e he hl pre post st h
+
+/-- consumed stays consumed: no later argument brings standard input back -/
+theorem stdin_stays_consumed (mode : LineMode) (fs : FS) (st : St) (arg : Str) (h : st.stdin = []) :
+    (argProcess mode fs st arg).stdin = [] :=
+  argProcess_stdin_nil mode fs st arg h
+
+/-- `printf 's1\n' | pdsh -w ^-,w1,^-,-^-` = `... -w ^-,w1,^E,-^E` with `E` empty (decided; pinned on the real pdsh by
+checks/c10.py `src:ss:*`, `word-forms:3`, `stdin-twice:*`) -/
+example :
+    let fs : FS := [⟨"E".toList, true, []⟩]
+    let args := ["^-", "w1", "^-", "-^-"].map String.toList
+    (args.foldl (argProcess .whole fs) { stdin := "s1\n".toList }).exprs = ["s1".toList, "w1".toList] ∧
+    (["^-", "w1", "^E", "-^E"].map String.toList).foldl (argProcess .whole fs) { stdin := "s1\n".toList } =
+      args.foldl (argProcess .whole fs) { stdin := "s1\n".toList } := by
+  refine ⟨by decide, ?_⟩
+  exact later_stdin_sources_are_empty_files .whole _ "E".toList (by decide) rfl
+    ["^-".toList] (["w1", "^-", "-^-"].map String.toList) _ (by decide)
 
 /-- a lone `-` INSIDE a comma-separated list is not standard input: it is the exclusion of the empty word
 (`-w a,-` = target `a`, exclusion ``); only the whole option argument `-` and the word `^-` mean stdin -/
